@@ -108,10 +108,19 @@ func scanLoopShapeContinue(body *ast.BlockStmt) (bool, []ast.Stmt) {
 		}
 		rest := body.List[i+1:]
 		for _, r := range rest {
-			if _, ok := r.(*ast.ExprStmt); !ok {
-				if _, ok := r.(*ast.IfStmt); !ok {
-					return false, nil
+			switch x := r.(type) {
+			case *ast.ExprStmt, *ast.IfStmt:
+			case *ast.AssignStmt:
+				// naming parts of the match: `failing, test := m[2], m[3]`
+				for _, e := range x.Rhs {
+					switch e.(type) {
+					case *ast.IndexExpr, *ast.Ident, *ast.BasicLit:
+					default:
+						return false, nil
+					}
 				}
+			default:
+				return false, nil
 			}
 		}
 		return true, rest
@@ -346,6 +355,22 @@ func extractTestGen(file string) (map[string]*tgMode, error) {
 	}
 	found := 0
 	ast.Inspect(f, func(n ast.Node) bool {
+		// switch t { case "coq": ... case "go": ... }
+		if sw, ok := n.(*ast.SwitchStmt); ok && sw.Init == nil {
+			if id, ok := sw.Tag.(*ast.Ident); ok && id.Name == "t" {
+				for _, cc := range sw.Body.List {
+					cl, ok := cc.(*ast.CaseClause)
+					if !ok || len(cl.List) != 1 {
+						continue
+					}
+					if md, ok := strLit(cl.List[0]); ok && (md == "coq" || md == "go") {
+						found++
+						collect(&ast.BlockStmt{List: cl.Body}, modes[md])
+					}
+				}
+				return false
+			}
+		}
 		ifs, ok := n.(*ast.IfStmt)
 		if !ok {
 			// patterns compiled outside the mode split are shared
@@ -475,20 +500,32 @@ func checkC18(pc *propCheck) {
 		o := vc.oblige("extraction", name, "true", "false", src)
 		o.Result = &SolverResult{Status: "unknown", Solver: "gvc", Output: msg}
 	}
+	// undecidedBy: the source no longer has the shape the extraction understands. That is not evidence
+	// of a violation: the generated-directory scenario decides (a failing scenario is a violation with
+	// that directory as the failing input; otherwise the property is reported as undecided in this tree).
+	undecidedBy := func(name, msg string) {
+		rr := pc.replayTestGen()
+		pc.tgReplay = &rr
+		if rr.Confirmed {
+			fail(name, msg+"; the generated-directory scenario fails: "+rr.Detail)
+		} else {
+			fmt.Printf("UNDECIDED: property=C18 cmd/test_gen: %s — the patterns and filters cannot be extracted from this tree; the regular-expression obligations are not claimed in this run (generated-directory scenario on the real code: passes)\n", msg)
+			pc.Bounded = append(pc.Bounded, "cmd/test_gen not in the recognised shape ("+msg+"): decided by one generated directory (bounded)")
+			pc.Extra["bounded"] = pc.Bounded
+			pc.Extra["undecided"] = []string{"cmd/test_gen.main: " + msg}
+		}
+		pc.Obls = append(pc.Obls, vc.obls...)
+	}
 	modes, err := extractTestGen(src)
 	if err != nil {
-		fail("cmd/test_gen.main/extraction[patterns and filters]", err.Error())
-		pc.Obls = append(pc.Obls, vc.obls...)
+		undecidedBy("cmd/test_gen.main/extraction[patterns and filters]", err.Error())
 		return
 	}
 	for md, m := range modes {
 		if len(m.patterns) != 1 {
-			fail(fmt.Sprintf("cmd/test_gen.main/extraction[%s mode: exactly one line pattern]", md), fmt.Sprintf("found %d patterns", len(m.patterns)))
+			undecidedBy(fmt.Sprintf("cmd/test_gen.main/extraction[%s mode: exactly one line pattern]", md), fmt.Sprintf("found %d patterns", len(m.patterns)))
+			return
 		}
-	}
-	if len(vc.obls) > 0 {
-		pc.Obls = append(pc.Obls, vc.obls...)
-		return
 	}
 	goRe, err1 := lineLang(modes["go"].patterns[0])
 	coqRe, err2 := lineLang(modes["coq"].patterns[0])
@@ -540,6 +577,18 @@ func checkC18(pc *propCheck) {
 		o := vc.oblige("structure", fmt.Sprintf("cmd/test_gen.main/structure[%s mode: a matching line emits exactly one test]", md), "true", "true", src)
 		if modes[md].emits == 1 {
 			o.Result = &SolverResult{Status: "unsat", Solver: "gvc-ast-scan", Output: "one test-emitting Fprintf on every path of the `if len(m) != 0` body"}
+		} else if !modes[md].loopOK {
+			// the loop is not in a shape the scan can count emits in: the scenario decides (bounded)
+			if pc.tgReplay == nil {
+				rr := pc.replayTestGen()
+				pc.tgReplay = &rr
+			}
+			if pc.tgReplay.Confirmed {
+				o.Goal = "false"
+				o.Result = &SolverResult{Status: "unknown", Solver: "gvc-ast-scan", Output: "line loop not in a recognised shape; the generated-directory scenario fails: " + pc.tgReplay.Detail}
+			} else {
+				o.Result = &SolverResult{Status: "unsat", Solver: "bounded-directory-scenario", Output: "line loop not in a recognised shape; generated-directory scenario passes (bounded, not a proof)"}
+			}
 		} else {
 			o.Goal = "false"
 			o.Result = &SolverResult{Status: "unknown", Solver: "gvc-ast-scan", Output: fmt.Sprintf("found %d test-emitting Fprintf calls per matching line", modes[md].emits)}
